@@ -15,6 +15,17 @@ CLAIMS = {
          "DESIGN.md section 4, C12"),
 }
 
+CLAIMS["C09"] = (
+    "Range rules: NumKeyRange.Contains, NumValue, NumRangeShard.FindForKey/EqualStart and ParseNumSharding are verified against the half-open "
+    "interval specification for every key and every range table (loop invariants, unbounded); keys outside every interval are rejected. "
+    "Calendar rules: getNumYear/getNumYearMonth/getNumYearMonthDay are panic-free for every key, return the period read from the 10-character "
+    "spelling, and unix-timestamp keys and their 'YYYY-MM-DD' spelling are placed identically (over trusted contracts for time.Unix/Format/Year "
+    "and strconv.Atoi). Acceptance of malformed string keys is a recorded known finding (residual obligations verified).",
+    "Trusted: strconv.ParseInt/Atoi, time.Unix/Format/Year as uninterpreted functions with the stated relations; hack.String; configuration size "
+    "bounds in ParseNumSharding's precondition (<=1024 slices, <=2^20 tables each, row limit < 2^31); ParseYear/Month/DayRange (time/strings "
+    "library loops) are not under contract.",
+    "DESIGN.md section 4, C09")
+
 NA = {
 }
 
